@@ -107,19 +107,19 @@ func c11Gen(rt *rapid.T) c11Prog {
 			op.H = map[string]any{"sender": gPick(rt, []string{"$u1", "usrAAAAAAAAAAE", "x"}, "fake"), "mime": "text/plain"}
 		}
 		if gPct(rt, 25) {
-			op.Obo = rapid.IntRange(1, 3).Draw(rt, "obo")
+			op.Obo = gInt(rt, 1, 3, "obo")
 		}
 		return op
 	}
-	n := rapid.IntRange(2, 12).Draw(rt, "nops")
+	n := gInt(rt, 2, 12, "nops")
 	for i := 0; i < n; i++ {
-		switch x := rapid.IntRange(0, 99).Draw(rt, "opk"); {
+		switch x := gInt(rt, 0, 99, "opk"); {
 		case x < 18:
 			p.Ops = append(p.Ops, wOp{K: "hi", S: 1, A: gPick(rt, []string{"0.22", "0.22", "0.22", "0.21", "0.15", "abc", "", "99"}, "ver")})
 		case x < 42:
 			var op wOp
 			if gPct(rt, 75) {
-				op = wOp{K: "login", S: 1, A: "token", U: rapid.IntRange(0, 3).Draw(rt, "u"),
+				op = wOp{K: "login", S: 1, A: "token", U: gInt(rt, 0, 3, "u"),
 					B: gPick(rt, []string{"valid", "valid", "valid", "expired", "expiring", "serial", "nologin", "badsig", "short", "foreignkey", "levelup", "rootclaim"}, "variant")}
 			} else if gPct(rt, 60) {
 				op = wOp{K: "login", S: 1, A: "basic", B: gPick(rt, []string{"alice1:" + c11Password, "alice1:wrongpass", "ALICE1:" + c11Password, "nobody:" + c11Password, "alice2:" + c11Password, "alice1:"}, "basic")}
@@ -133,7 +133,7 @@ func c11Gen(rt *rapid.T) c11Prog {
 		case x < 47:
 			p.Ops = append(p.Ops, wOp{K: "tick", N: gPick(rt, []int{100, 4000}, "ms")})
 		case x < 52:
-			p.Ops = append(p.Ops, wOp{K: "acc", S: 1, U: rapid.IntRange(0, 2).Draw(rt, "u"), A: gPick(rt, []string{"susp", "ok", ""}, "st")})
+			p.Ops = append(p.Ops, wOp{K: "acc", S: 1, U: gInt(rt, 0, 2, "u"), A: gPick(rt, []string{"susp", "ok", ""}, "st")})
 		case x < 56:
 			// create a new account, mostly asking to be logged in as that account right away
 			p.Ops = append(p.Ops, wOp{K: "acc", S: 1, B: "new", A: fmt.Sprintf("newbie%d:%s", i, c11Password), F: gPct(rt, 75)})
